@@ -152,7 +152,7 @@ TITLES = ["a", "A", "b", "a 1", "id1", "b c", "Title *em*", "2024", "1"]
 def ids_case(draw):
     blocks = []
     for _ in range(draw(st.integers(2, 9))):
-        k = draw(st.integers(0, 16))
+        k = draw(st.integers(0, 18))
         nm = draw(st.sampled_from(NAMES))
         lab = nm.replace(" ", "-")
         if k == 0:
@@ -194,6 +194,17 @@ def ids_case(draw):
             failing = draw(st.sampled_from(["[obj](inv:#nosuch-object)", "[obj](inv:a:b:c:d:e#x)", "[obj](inv:nokey#x)", "{unknownrole}`x`",
                                             "![i](<>)", "[t](project:nosuch.md)"]))
             blocks.append(f"{failing}{{#{lab}}} then [to it](#{lab}) and [](#{lab})")
+        elif k == 17:
+            # a line block with nested (more deeply indented) lines: nested line_block nodes are built by hand
+            blocks.append(draw(st.sampled_from([
+                "```{line-block}\nline one\n  indented line\n    deeper line\nback again\n```",
+                "```{line-block}\n  starts indented\nless\n      much deeper\n  middle\n```",
+                "> ```{line-block}\n> a\n>   b\n>     c\n> ```"])))
+        elif k == 18:
+            # an HTML block whose first element is convertible and carries a name, followed by one that is not convertible
+            tail = draw(st.sampled_from(["<em>x</em>", "<br>", "<p>para</p>", "<img alt=\"no src\">", ""]))
+            head = draw(st.sampled_from([f'<img src="a.png" name="{lab}">', f'<div class="admonition" name="{lab}">\n<p>body</p>\n</div>']))
+            blocks.append(f"{head}{tail}\n\n[to it](#{lab}) and [](#{lab})")
         elif k == 14:
             blocks.append(f"[^{lab}]: def in quote\n\n> [^{lab}]: second def [^{lab}]\n\n{lab} [^{lab}]")
         else:
@@ -202,7 +213,7 @@ def ids_case(draw):
             d = draw(st.sampled_from(["only} html", "only} latex or html", "ifconfig} True", "only} html"]))
             blocks.append("````{" + d + "\n" + "#" * draw(st.integers(1, 3)) + " " + t + "\n\ninner text\n\n" + "#" * draw(st.integers(2, 4))
                           + " " + draw(st.sampled_from(TITLES)) + "\n````")
-    cfg = {"enable_extensions": ["attrs_block", "attrs_inline", "dollarmath", "colon_fence"],
+    cfg = {"enable_extensions": ["attrs_block", "attrs_inline", "dollarmath", "colon_fence", "html_image", "html_admonition"],
            "heading_anchors": draw(st.sampled_from([0, 2, 3])), "footnote_sort": draw(st.booleans())}
     return {"gen": "ids", "text": "\n\n".join(blocks) + "\n", "cfg": cfg}
 
